@@ -23,7 +23,6 @@ import (
 	"os"
 	"os/exec"
 	"path/filepath"
-	"regexp"
 	"sort"
 	"strconv"
 	"strings"
@@ -56,6 +55,7 @@ type c08In struct {
 	Unicode  bool              `json:"unicode_enabled"`     // termunicode.UnicodeEnabled
 	Compare  bool              `json:"compare,omitempty"`   // flat: output compared with the model
 	Blocks   int64             `json:"bar_blocks,omitempty"` // flat bar: termscaler.LengthVal(..) oracle
+	Expect   string            `json:"expect,omitempty"`     // "inf": an @for that never ends by its condition must yield <INF>
 }
 type c08Out struct {
 	Outcome string `json:"outcome"` // ok | panic | hang
@@ -394,7 +394,6 @@ func flatTags(fn string, args []c08Arg) (tags []string, heavy bool) {
 				l := int64(len(v[0]))
 				if c < 0 || c > repeatCap || l*c > repeatCap {
 					tags = append(tags, "kf:C08-repeat-count")
-					heavy = c > 0
 				}
 			}
 		}
@@ -404,40 +403,6 @@ func flatTags(fn string, args []c08Arg) (tags []string, heavy bool) {
 			ml, ok2 := atoiOk(v[2])
 			if ok1 && ok2 && (ml < 0 || ml > barCap) {
 				tags = append(tags, "kf:C08-bar-length")
-				heavy = true
-			}
-		}
-	case "bytesize", "bytesizesi", "downscale", "round", "percent":
-		// the precision (a constant of the template) is handed to strconv.FormatFloat unchecked
-		if len(args) >= 2 && args[1].Const {
-			if p, ok := atoiOk(v[1]); ok && p > 1000001 {
-				tags = append(tags, "kf:C08-precision-unbounded")
-				heavy = true
-			}
-		}
-	case "@range":
-		var st, en, inc int64 = 0, 0, 1
-		ok := true
-		get := func(i int) int64 {
-			x, o := atoiOk(v[i])
-			ok = ok && o
-			return x
-		}
-		switch len(args) {
-		case 1:
-			en = get(0)
-		case 2:
-			st, en = get(0), get(1)
-		case 3:
-			st, en, inc = get(0), get(1), get(2)
-		default:
-			ok = false
-		}
-		if ok && inc != 0 {
-			cnt := (float64(en) - float64(st)) / float64(inc)
-			if cnt > 200000 {
-				tags = append(tags, "kf:C08-range-unbounded")
-				heavy = true
 			}
 		}
 	}
@@ -506,6 +471,16 @@ func finish(in c08In, tags []string, nontrivial bool) Case {
 	var term string
 	if in.Kind == "flat" && in.Compare && (ship || out.Outcome != "ok") {
 		term = fmt.Sprintf("cf \"%s\" %s %s %s %s %s", in.Fn, coqArgs(in.Args), B(in.Color), B(in.Unicode), Z(in.Blocks), coqOutcome(out, true))
+	} else if in.Fn == "@range" && (in.Kind == "call" || in.Kind == "heavy") && len(in.Args) > 0 {
+		// the cap of @range: the model predicts <VALUE> when the progression has more than 10^6 elements
+		vals := make([]string, len(in.Args))
+		for i, a := range in.Args {
+			vals[i] = H([]byte(unhex(a.Val)))
+		}
+		term = "cr " + CoqList(vals) + " " + coqOutcome(out, out.Len <= 8192)
+		tags = append(tags, "range:predicted")
+	} else if in.Expect == "inf" {
+		term = "ci " + coqOutcome(out, out.Len <= 8192)
 	} else {
 		term = "ca " + coqOutcome(out, false)
 	}
@@ -542,6 +517,9 @@ func readable(s string) string {
 	return strconv.QuoteToASCII(s)
 }
 
+var precisionFns = map[string]bool{"round": true, "percent": true, "bytesize": true, "bytesizesi": true, "downscale": true}
+var precisionFns2 = map[string]int{"round": 2, "percent": 4, "bytesize": 2, "bytesizesi": 2, "downscale": 2} // largest arity
+
 func mkCall(kind, fn string, args []c08Arg, col, uni bool) (c08In, []string, bool) {
 	tpl, groups := callTemplate(fn, args)
 	in := c08In{Kind: kind, Fn: fn, Args: args, Template: hx(tpl), Text: readable(tpl), Groups: groups, Color: col, Unicode: uni}
@@ -554,6 +532,14 @@ func mkCall(kind, fn string, args []c08Arg, col, uni bool) (c08In, []string, boo
 		// model restrictions: ASCII colour / scaler names
 		if fn == "color" && len(args) >= 1 && !constSafe(unhex(args[0].Val)) {
 			in.Compare = false
+		}
+	}
+	// round / percent / bytesize / bytesizesi / downscale: a constant precision above maxPrecision (1100) must
+	// give <VALUE> whatever the other arguments are (the model needs no oracle for that)
+	if precisionFns[fn] && len(args) >= 2 && len(args) <= precisionFns2[fn] && args[1].Const {
+		if p, ok := atoiOk(unhex(args[1].Val)); ok && p > 1100 {
+			in.Compare = true
+			tags = append(tags, "precision:above-max")
 		}
 	}
 	if in.Compare {
@@ -575,6 +561,10 @@ func genArgs(r *Rng, fn string, arity int) []c08Arg {
 			v = Pick(r, []string{"0", "1", "5", "40", "10000", "10001", "-1"})
 		case fn == "repeat" && i == 1 && r.Chance(1, 2):
 			v = Pick(r, []string{"0", "1", "2", "7", "1000", "-1", "1000000", "1000001", "500000", "500001"})
+		case precisionFns[fn] && i == 1 && r.Chance(2, 3):
+			v = Pick(r, []string{"0", "2", "1100", "1101", "2147483648", "9223372036854775807", "-1", "-9223372036854775808", "1000001", "4294967296"})
+		case fn == "@range" && r.Chance(3, 4):
+			v = Pick(r, []string{"0", "1", "-1", "5", "1000000", "1000001", "-1000001", "9223372036854775807", "-9223372036854775808", "9223372036854775800", "4294967296", "2", "-2", "10", "999999"})
 		case fn == "repeat" && i == 0 && r.Chance(1, 2):
 			v = Pick(r, []string{"a", "ab", "", "-", " "})
 		default:
@@ -588,7 +578,7 @@ func genArgs(r *Rng, fn string, arity int) []c08Arg {
 			}
 		}
 		cst := constSafe(v) && len(v) < 200 && r.Chance(1, 2)
-		if (fn == "repeat" && i == 0) || (fn == "color" && i == 0) || (fn == "bar" && i >= 1) || ((fn == "bucket" || fn == "bucketrange" || fn == "clamp") && i >= 1) {
+		if (fn == "repeat" && i == 0) || (fn == "color" && i == 0) || (fn == "bar" && i >= 1) || (precisionFns[fn] && i == 1) || ((fn == "bucket" || fn == "bucketrange" || fn == "clamp") && i >= 1) {
 			cst = constSafe(v) && len(v) < 200 && r.Chance(7, 8)
 		}
 		args[i] = c08Arg{Const: cst, Val: hx(v), Text: readable(v)}
@@ -652,6 +642,37 @@ func c08Gen(r *Rng, n int, tier string) []Case {
 		}
 	}
 
+	// 1a. the helpers with a documented cap, around and far beyond it: @range (elements), repeat (bytes), bar (length),
+	//     round / percent / bytesize / bytesizesi / downscale (precision); outputs are compared with the model's marker
+	for j := 0; j < 24+n/50; j++ {
+		fn := Pick(r, []string{"@range", "@range", "@range", "repeat", "bar", "round", "percent", "bytesize", "bytesizesi", "downscale"})
+		arity := 2
+		switch fn {
+		case "@range":
+			arity = r.Range(1, 3)
+		case "bar":
+			arity = r.Range(3, 4)
+		case "percent":
+			arity = r.Range(2, 4)
+		}
+		args := genArgs(r, fn, arity)
+		in, tags, heavy := mkCall("call", fn, args, r.Bool(), r.Bool())
+		add(in, append(tags, "capped-helper"), heavy, true)
+	}
+
+	for _, fn := range []string{"round", "percent", "bytesize", "bytesizesi", "downscale"} {
+		for _, p := range []string{"1100", "1101", "2147483648", "9223372036854775807"} {
+			for _, cst := range []bool{true, false} {
+				args := []c08Arg{{Const: cst, Val: hx("1234.5678"), Text: "1234.5678"}, {Const: true, Val: hx(p), Text: p}}
+				if fn != "round" && fn != "percent" {
+					args[0] = c08Arg{Const: cst, Val: hx("123456789"), Text: "123456789"}
+				}
+				in, tags, heavy := mkCall("call", fn, args, false, true)
+				add(in, append(tags, "capped-helper"), heavy, true)
+			}
+		}
+	}
+
 	// 1b. {! ..} formulas: every binary operator of stdmath x both operand positions x the float boundary
 	//     pool, operands as constants of the formula (compile-time folding) and as group references; every
 	//     unary operator on every value.  A deterministic sweep, thinned in the quick tier by the seed.
@@ -680,6 +701,14 @@ func c08Gen(r *Rng, n int, tier string) []Case {
 				}
 			}
 		}
+	}
+
+	// 1c. arguments that a library parses as a small language (printf formats, time layouts, gjson paths,
+	//     durations, zone / bucket / attribute names): strings from a grammar of complete pieces plus TRUNCATED
+	//     tails (lone %, %-, %5, %., %[, unpaired quotes / brackets / backslashes ...), as constants of the
+	//     template (compile-time paths) and via groups.  A deterministic sweep of every tail, then random strings.
+	for _, lc := range langCases(r, n*12/100) {
+		add(lc, []string{"lang:" + lc.Fn}, false, true)
 	}
 
 	// 2. nested sub-expressions: negative group indices, key look-ups, helpers inside helpers
@@ -832,6 +861,208 @@ func genNested(r *Rng, names []string) (c08In, []string) {
 	_, _ = neg, key
 	tags = append(tags, textTags(tpl)...)
 	return in, tags
+}
+
+// ---- mini-languages parsed by libraries behind the forwarders
+type miniLang struct {
+	name   string
+	pieces []string // complete constructs
+	plain  []string // prefixes the deterministic sweep puts before every tail ("" included)
+	tails  []string // truncated / unpaired endings
+}
+
+var langPrintf = miniLang{"printf",
+	[]string{"%s", "%v", "%d", "%5s", "%-5s", "%05d", "%.2f", "%[1]s", "%[2]v", "%%", "%x", "%q", "%T", "%c", "%U", "%e", "%*d", "%+d", "%#v", "% d",
+		"x", "100", "done ", " ", "%[1]*d", "%!", "%z", "%s", "%v", "%%"},
+	[]string{"", "%s", "100", "%s %v %%", "done %s "},
+	[]string{"%", "%-", "%5", "%.", "%[", "%[1", "%[1]", "%+", "%#", "%0", "% ", "%5.", "%*", "%.*", "%[9999999999", "%[-1]", "%%%", "\"", "\\", "]", "[", "}", "'", "%\\", "%\""}}
+var langLayout = miniLang{"layout",
+	[]string{"2006", "01", "02", "15", "04", "05", "Jan", "January", "Mon", "Monday", "MST", "-0700", "-07:00", "Z07:00", "Z0700", ".000", ".999999999", ",000",
+		"_2", "__2", "002", "PM", "pm", "1", "2", "3", "4", "5", "06", "T", " ", "-", "/", ":", "RFC3339", "nginx", "unix", "ansic", "month"},
+	[]string{"", "2006-01-02", "15:04:05", "Jan "},
+	[]string{"200", "0", "-07", "-07:", "Z07:", "Z0", "Z", ".", "_", "__", "Jan2", "Mo", "P", "-070", "Z070", ".00x", "%Y", "\"", "\\", "[", "]", "}", "'"}}
+var langJSONPath = miniLang{"jsonpath",
+	[]string{"a", "b", "#", "0", "-1", "*", "?", "a.b", "a.#", "a.#.b", "#(b==1)", "#(b>1)#", "#(b%\"x*\")", "@reverse", "@this", "@pretty", "@flatten", "@keys", "@values",
+		"@join", "a|b", "..", "[a,b]", "\\.", "@tostr", "@fromstr", "@group", "@dig:b", "!", "~true", "."},
+	[]string{"", "a.", "a.#.", "a|"},
+	[]string{".", "|", "#(", "#(b", "#(b==", "#(b==\"", "#(b==1", "#(b==1)#.", "@", "@pretty:", "@pretty:[", "@pretty:{\"indent\":", "[", "[a", ":", "\\", "a.\\", "*?",
+		"@flatten:[\"deep\":tr", "#(#(", "~", "\"", "}", "]", "'"}}
+var langDuration = miniLang{"duration",
+	[]string{"1h", "30m", "1.5s", "2us", "3ns", "4ms", "1µs", "-1h", "+1m", "9223372036854775807ns", "0", ".5s", "1.h"},
+	[]string{"", "1h", "-"},
+	[]string{"1", "h", "1.", "-", "+", "1e3s", "1h3", ".s", "9999999999999999999h", "1d", "\"", "\\", ".", "1.5"}}
+var langZone = miniLang{"zone", []string{"UTC", "Local", "local", "America/New_York", "utc", "Etc/GMT+1"}, []string{""},
+	[]string{"Europe/", "../etc", "/", "Nope/Zone", "..", "UTC\\", "America/New_Yor", "\"", "["}}
+var langBucket = miniLang{"bucket", []string{"nanos", "sec", "min", "hours", "d", "mo", "months", "y"}, []string{""}, []string{"n", "s", "m", "x", "mon\\", "\"", "daysx", "["}}
+var langAttr = miniLang{"attr", []string{"weekday", "week", "yearweek", "quarter", "WEEKDAY"}, []string{""}, []string{"wee", "bad", "\"", "\\", "week\\"}}
+
+// one argument position: a mini-language, or fixed values
+type langArg struct {
+	lang *miniLang
+	vals []string
+}
+
+type langCall struct {
+	fn   string
+	args []langArg
+	min  int // smallest arity generated
+}
+
+var unixVals = []string{"0", "1700000000", "-1", "9223372036854775807", "-9223372036854775808", "abc", "253402300800", "1e3"}
+var timeVals = []string{"2024-01-02T03:04:05Z", "2024-01-02", "Jan 2 2006", "", "14/Mar/2023:05:21:12 +0000", "99999999999", "2024-13-45", "03:04:05", "2024-01-02 03:04:05.999 -0700", "\xff", "now", "Mon"}
+var jsonDocs = []string{`{"a":[{"b":1},{"b":2}],"b":"x"}`, "", "{", "[1,2", "null", "\xff", `{"a":{"a":{"a":{"a":1}}}}`, `[[[[[[[[[[1]]]]]]]]]]`, `{"a":"\ud800"}`, `{"a.b":1,"#":2,"*":3}`, "1e999", `{"a":[1,2,3`}
+var plainVals = []string{"x", "7", "", "a b", "-3", "1.5", "\xff\xfe", "a\x00b"}
+
+var langCallTable = []langCall{
+	{"format", []langArg{{lang: &langPrintf}, {vals: plainVals}, {vals: plainVals}, {vals: plainVals}}, 1},
+	{"timeformat", []langArg{{vals: unixVals}, {lang: &langLayout}, {lang: &langZone}}, 2},
+	{"time", []langArg{{vals: timeVals}, {lang: &langLayout}, {lang: &langZone}}, 2},
+	{"buckettime", []langArg{{vals: timeVals}, {lang: &langBucket}, {lang: &langLayout}, {lang: &langZone}}, 2},
+	{"timeattr", []langArg{{vals: unixVals}, {lang: &langAttr}, {lang: &langZone}}, 2},
+	{"duration", []langArg{{lang: &langDuration}}, 1},
+	{"json", []langArg{{vals: jsonDocs}, {lang: &langJSONPath}}, 2},
+	{"@split", []langArg{{vals: []string{"a,b,,c", "", "a::b", "a\x00b"}}, {lang: &miniLang{"delim", []string{",", "::", " ", "b"}, []string{""}, []string{"", "\"", "\\", "\\\\", "}"}}}}, 2},
+	{"lookup", []langArg{{vals: []string{"k", "", "a b"}}, {lang: &miniLang{"table", []string{"k v\n", "a b c\n", "# c\n", "k\n", "\r\n", "k  v2\n"}, []string{"", "k v\n"}, []string{"k", "k ", "\"", "\\", "#", "k v\r"}}}, {vals: []string{"#", "", "k"}}}, 2},
+}
+
+// a value as a constant of the template: quoted; the three escape levels (outer scanner, argument splitter,
+// compilation of the argument) need  \\"  for a quote, eight backslashes for one, \\\}  for a closing brace.
+// An opening brace, control characters and non-ASCII bytes travel as groups only.
+func constLit(v string) (string, bool) {
+	var sb strings.Builder
+	sb.WriteByte('"')
+	for i := 0; i < len(v); i++ {
+		c := v[i]
+		switch {
+		case c == '"':
+			sb.WriteString(`\\"`)
+		case c == '\\':
+			sb.WriteString(`\\\\\\\\`)
+		case c == '}':
+			sb.WriteString(`\\\}`)
+		case c == '{' || c < 32 || c >= 127:
+			return "", false
+		default:
+			sb.WriteByte(c)
+		}
+	}
+	sb.WriteByte('"')
+	return sb.String(), len(v) < 300
+}
+
+var escapedConstsOk = -1 // -1 unknown, 0 no, 1 yes: decided once by a self-test through the worker
+
+func escapedConsts() bool {
+	if escapedConstsOk < 0 {
+		probe := "a\"b\\c}d%"
+		lit, _ := constLit(probe)
+		in := c08In{Kind: "lang", Template: hx("{$ " + lit + "}"), Unicode: true}
+		out := runImpl(&in)
+		escapedConstsOk = 0
+		if out.Outcome == "ok" && unhex(out.Out) == probe {
+			escapedConstsOk = 1
+		}
+	}
+	return escapedConstsOk == 1
+}
+
+func needsEscape(v string) bool { return strings.ContainsAny(v, "\"\\}") }
+
+// builds {fn a1 .. ak}; asConst[i]: write argument i as a constant when it can be written as one
+func langTemplate(fn string, vals []string, asConst []bool) c08In {
+	var sb strings.Builder
+	sb.WriteString("{" + fn)
+	var groups []string
+	for i, v := range vals {
+		sb.WriteByte(' ')
+		lit, ok := constLit(v)
+		if asConst[i] && ok && (!needsEscape(v) || escapedConsts()) {
+			sb.WriteString(lit)
+		} else {
+			sb.WriteString(fmt.Sprintf("{%d}", len(groups)))
+			groups = append(groups, hx(v))
+		}
+	}
+	sb.WriteString("}")
+	t := sb.String()
+	return c08In{Kind: "lang", Fn: fn, Template: hx(t), Text: readable(t), Groups: groups, Unicode: true}
+}
+
+func langString(r *Rng, l *miniLang) string {
+	var sb strings.Builder
+	for k := r.Intn(4); k > 0; k-- {
+		sb.WriteString(Pick(r, l.pieces))
+		if l.name == "jsonpath" && k > 1 {
+			sb.WriteString(Pick(r, []string{".", ".", "|", ""}))
+		}
+	}
+	if r.Bool() {
+		sb.WriteString(Pick(r, l.tails))
+	}
+	return sb.String()
+}
+
+func langCases(r *Rng, nRandom int) []c08In {
+	var out []c08In
+	defaults := func(lc *langCall, r *Rng, upto int) []string {
+		vals := make([]string, upto)
+		for i := 0; i < upto; i++ {
+			if lc.args[i].lang != nil {
+				vals[i] = Pick(r, lc.args[i].lang.pieces)
+			} else {
+				vals[i] = Pick(r, lc.args[i].vals)
+			}
+		}
+		return vals
+	}
+	// deterministic sweep: every tail of every language position, after each plain prefix, constant and group
+	for ci := range langCallTable {
+		lc := &langCallTable[ci]
+		for pos, a := range lc.args {
+			if a.lang == nil {
+				continue
+			}
+			arity := pos + 1
+			if arity < lc.min {
+				arity = lc.min
+			}
+			if lc.fn == "format" {
+				arity = 2
+			}
+			for _, tail := range a.lang.tails {
+				for _, pre := range a.lang.plain {
+					for _, cst := range []bool{true, false} {
+						vals := defaults(lc, r, arity)
+						vals[pos] = pre + tail
+						asConst := make([]bool, arity)
+						for i := range asConst {
+							asConst[i] = i != pos && lc.args[i].lang != nil // the other language arguments constant
+						}
+						asConst[pos] = cst
+						out = append(out, langTemplate(lc.fn, vals, asConst))
+					}
+				}
+			}
+		}
+	}
+	// random strings of the grammar, random arity, each argument constant or group
+	for i := 0; i < nRandom; i++ {
+		lc := &langCallTable[r.Intn(len(langCallTable))]
+		arity := r.Range(lc.min, len(lc.args))
+		vals := make([]string, arity)
+		asConst := make([]bool, arity)
+		for j := 0; j < arity; j++ {
+			if lc.args[j].lang != nil {
+				vals[j] = langString(r, lc.args[j].lang)
+				asConst[j] = r.Chance(2, 3)
+			} else {
+				vals[j] = Pick(r, lc.args[j].vals)
+				asConst[j] = r.Chance(1, 3)
+			}
+		}
+		out = append(out, langTemplate(lc.fn, vals, asConst))
+	}
+	return out
 }
 
 // ---- {! ..} formulas
@@ -1012,9 +1243,18 @@ func fixedCases() []fixedCase {
 	raw("malformed", "}{\"", nil, nil)
 	raw("nested", "{@map {@ a b} \"{-1}\"}", nil, nil, textTags("{@map {@ a b} \"{-1}\"}")...)
 	raw("nested", "{@for 0 {lt {0} {k}} {sumi {0} 1}}", nil, map[string]string{"k": "3"}, textTags("{@for 0 {lt {0} {k}} {sumi {0} 1}}")...)
-	// the condition is the truthy marker <BAD-TYPE> for ever and the value grows: the iteration cap does not bound the output
-	raw("nested", "{@for a {lt {0} x} {0}{0}}", nil, nil, textTags("{@for a {lt {0} x} {0}{0}}")...)
-	raw("nested", "{! 5 % 0}{! 1 << [0]}{! -}{! 2+-}", []string{"-1"}, nil)
+	// the condition is the truthy marker <BAD-TYPE> for ever and the value grows: <INF> by the output bound
+	inf := func(tpl string) {
+		out = append(out, fixedCase{c08In{Kind: "nested", Template: hx(tpl), Text: readable(tpl), Unicode: true, Expect: "inf"}, []string{"for:expect-inf"}, false})
+	}
+	inf("{@for a {lt {0} x} {0}{0}}")
+	inf("{@for a {lt {0} x} {0}a}")
+	inf("{@for 0 {lt {1} x} {sumi {0} 1}}")
+	// a loop whose condition reads the context: the optimiser probes it with every look-up = ""
+	raw("nested", "{@for 0 {lt {1} {lim}} {0}a}", nil, map[string]string{"lim": "3"})
+	call("@range", G("9223372036854775800"), G("9223372036854775807"), G("10"))
+	call("@range", G("0"), G("1000000"))
+	call("@range", K("0"), K("1000001"))
 	return out
 }
 
@@ -1063,11 +1303,6 @@ func textTags(t string) []string {
 				break
 			}
 		}
-		// a condition that is not constant (the optimiser evaluates it with every look-up = "") or never false,
-		// and an increment other than the counter {sumi {0} 1}: the value may grow without bound
-		if strings.Contains(t, "{lt {0} x}") || (strings.Contains(t, "{lim}") && !strings.HasSuffix(t, "{sumi {0} 1}}") && !strings.HasSuffix(t, "{sumi {0} 1}\"}")) {
-			tags = append(tags, "kf:C08-for-output-unbounded")
-		}
 	} else if sub {
 		for _, k := range []string{"{k}", "{lim}", "{nokey}", "{src}"} {
 			if strings.Contains(t, k) {
@@ -1076,17 +1311,9 @@ func textTags(t string) []string {
 			}
 		}
 	}
-	// a mutation may turn an argument into a huge integer precision (see flatTags)
-	for _, fn := range []string{"bytesize", "bytesizesi", "downscale", "round", "percent"} {
-		if strings.Contains(t, "{"+fn+" ") && longDigits.MatchString(t) {
-			tags = append(tags, "kf:C08-precision-unbounded")
-			break
-		}
-	}
 	return tags
 }
 
-var longDigits = regexp.MustCompile(`[0-9]{8,}`)
 
 var _ = math.MaxInt64
 
@@ -1106,6 +1333,7 @@ func main() {
 			"negative group indices and key look-ups inside @map/@filter/@reduce/@for and helpers nested in helpers; (3) malformed templates: 1-3 " +
 			"mutations (insert/delete/replace by brace, quote, backslash, blank; truncation; trailing backslash; duplicated prefix) of well-formed ones; " +
 			"(1b) {! ..} formulas: every key of stdmath ops / uniOps (read from the source) x both operand positions x the float pool (0, -0, 1e308, NaN, +-Inf, non-zero magnitudes below 1 such as 0.5, -0.25, 1e-300, 5e-324, neighbours of +-1 and +-2^63, non-integers 2.5, -1.5, shift counts around 64), operands as constants (folded at compile time) and as group references; " +
+			"(1c) arguments parsed as a small language by a library (printf formats of format, layouts / zones / bucket and attribute names of the time helpers, gjson paths, durations, @split delimiters, lookup tables): every truncated or unpaired tail (lone %, %-, %5, %., %[, quotes, brackets, backslashes) after plain prefixes, as a template constant and via a group, plus random strings of each grammar; " +
 			"(0) the inputs of the recorded findings. Non-trivial: an argument is a boundary value, or the case is nested / malformed. Distinct: by " +
 			"(template, groups, keys, colour/unicode switches).",
 		Gen:    c08Gen,
